@@ -808,9 +808,8 @@ def check_node(classes, orig, res, declared, mode, code_mode, top_drop, save, in
 
     if res is None or res.get("t") != "inst":
         # nothing (or the undecoded raw dict that Optional's try_functions falls back to) came back: an exception was raised
-        # somewhere in this subtree (finding C14-frozen-noninit-setattr when a frozen class with an init=False field is in it)
-        fail("recover", f"at {path}: no instance came back for a {D} loaded through {declared}: {str(res)[:120]}",
-             frozen_noninit=any(_frozen_noninit(classes, n["cls"]) for n in _subnodes(orig)))
+        # somewhere in this subtree
+        fail("recover", f"at {path}: no instance came back for a {D} loaded through {declared}: {str(res)[:120]}")
         return
     R = res["cls"]
     if R not in by_name(classes):
@@ -862,11 +861,6 @@ def check_node(classes, orig, res, declared, mode, code_mode, top_drop, save, in
             for kk, x in ov["v"]:
                 check_node(classes, x, items.get(kk["v"]), c, want, does, top_drop, save, True, path + [n, kk["v"]], sdict,
                            fails, kind=k)
-
-
-def _frozen_noninit(classes, name):
-    """a frozen dataclass with an init=False field: from_dict's setattr raises FrozenInstanceError"""
-    return bool(by_name(classes)[name].get("frozen")) and any(not f["init"] for f in all_fields(classes, name))
 
 
 def _walk(classes, v, declared, in_container):
@@ -934,8 +928,7 @@ def _oracle(case, obs):
             if o["o"] != "ok":
                 lf.append({"clause": "raise", "detail": f"loading a {inst['cls']} through {base} raised {o.get('exc')}",
                            "path": [], "orig": inst["cls"], "through": base, "mode": mode, "in_container": False,
-                           "exc": o.get("exc"),
-                           "frozen_noninit": any(_frozen_noninit(classes, n["cls"]) for n in _subnodes(inst))})
+                           "exc": o.get("exc")})
             else:
                 check_node(classes, inst, o["v"], base, mode, mode, ld["drop"], save, False, [], obs["dict"], lf)
                 if not lf and o["v"] == inst and not ld.get("equal"):
@@ -1043,6 +1036,8 @@ def tags(case, obs):
                             "root" if by_name(cl)[base]["parent"] in (None, "Serializable") else "mid"))
         if by_name(cl)[D].get("frozen"):
             t.append("frozen")
+            if any(not f["init"] for f in all_fields(cl, D)):
+                t.append("frozen-with-noninit-field")
         if any(len({f["name"] for f in x["fields"]} & set(field_names(cl, x["parent"]))) for x in cl if x["parent"]):
             t.append("redeclared-field")
         if not by_name(cl)[base]["fields"] and by_name(cl)[base]["parent"] is None:
@@ -1163,16 +1158,6 @@ def _sig_d16(case, obs, fail):
             and fail.get("in_container") is True and fail.get("type_key_written") is False)
 
 
-def _sig_frozen(case, obs, fail):
-    """the load raised FrozenInstanceError (or, below an Optional field, fell back to the raw dict) and the instance tree
-    contains a node whose class is a frozen dataclass with an init=False field (from_dict uses setattr for those)"""
-    if case["op"] not in ("sub.load", "sub.history") or not fail.get("frozen_noninit"):
-        return False
-    if fail.get("clause") == "raise":
-        return fail.get("exc") == "FrozenInstanceError"
-    return fail.get("clause") == "recover"
-
-
 def _sig_forwarding(case, obs, fail):
     """a NESTED node without `_type_` (save_dc_types off) whose class obeys what decode_field forwards — the container's
     resolved drop_extra_fields for a dataclass-annotated field, the item class's own flag for Optional/List/Dict items — and
@@ -1184,12 +1169,11 @@ def _sig_forwarding(case, obs, fail):
 
 FINDINGS = {
     "C14-D16-no-type-key-in-containers": _sig_d16,
-    "C14-frozen-noninit-setattr": _sig_frozen,
     "C14-nested-drop-forwarding": _sig_forwarding,
 }
 
 MANIFEST = {
-    "text": ("Proof, partial with three named gaps. PROVED for all inputs over the model of from_dict/to_dict/__init_subclass__: the "
+    "text": ("Proof, partial with two named gaps. PROVED for all inputs over the model of from_dict/to_dict/__init_subclass__: the "
              "stable sort by field count + first-superset choice (all fields, init=False included) returns exactly the class whose "
              "field set identifies it, for EVERY iteration order of the subclass set, hence every definition order / history, any "
              "hierarchy size (cardinality argument); without identification the chosen class has EXACTLY the serialized field set and "
@@ -1200,8 +1184,9 @@ MANIFEST = {
              "from the class table `resolve h` for any list of class statements incl. redeclared fields; flag inheritance one step at "
              "a time; with save_dc_types the exact class at every depth through dataclass-typed and Optional fields, any load class, "
              "any drop. EXCLUDED and refuted by witnesses (open findings): every non-empty List/Dict field under save_dc_types (D16: no "
-             "_type_ key is written inside containers — the exclusion is all non-empty containers, wider than the defect), frozen "
-             "classes with an init=False field (setattr raises), nested drop forwarding. SAMPLED only (correspondence + oracle on real "
+             "_type_ key is written inside containers — the exclusion is all non-empty containers, wider than the defect), and "
+             "nested drop forwarding. Repaired and kept as theorems / regression cases: a subclass whose extra field is init=False, the "
+             "init-count tie-break, frozen classes with an init=False field (c14_load_through_self holds for every class). SAMPLED only (correspondence + oracle on real "
              "classes in fresh modules, shuffled definition orders, staged histories, repeated loads of one dict): values of nested "
              "contents for clauses 1-3, containers, edited dicts, loading through Serializable itself, the closed form of flag "
              "inheritance over several levels."),
